@@ -739,11 +739,11 @@ def finding_class(db, case, outcome):
         return "manifest_unchecked_" + og
     if fk == "wal":
         if og == "wrong_data":
-            if reg == "rec_type" and case["val"] == 9:
-                return "wal_type_to_setcompression_unchecked"
             last = db.walmap[-1][0] if db.walmap else None
             if case["rel"] != last:
                 return "wal_earlier_segment_damage_leaves_hole"
+            if reg == "rec_type" and case["val"] == 9:
+                return "wal_type_to_setcompression_unchecked"
             if case["mode"] == "abs":
                 return "wal_abs_%s_accepted" % reg
         return "wal_%s_%s" % (reg, og)
